@@ -9,19 +9,19 @@ WT=$1; SD=$2; PKG=$3; ID=$4
 export GOFLAGS=-mod=mod GOPROXY=off GOSUMDB=off GOTOOLCHAIN=local
 cd "$WT" || exit 2
 git checkout -q -- . ; rm -f "$PKG"/zz_demo_test.go
-EXIST="./$PKG/"; RUN=""
+EXIST="./$PKG/"; RUN="${SEED_RUN:-}"; TAGS="${SEED_TAGS:-}"
 if [ "$PKG" = "pkg/core" ]; then
   EXIST="./pkg/model/ ./pkg/cafs/ ./pkg/storage/localfs/"; RUN="-run Demo"
   if [ ! -f pkg/storage/mockstorage/store.go ]; then mkdir -p pkg/storage/mockstorage && cp /verif/tools/mockstorage_store.go.txt pkg/storage/mockstorage/store.go; fi
 fi
 git apply "$SD/patch.diff" || { echo "patch does not apply"; exit 1; }
 go build ./... >/dev/null 2>&1 || { echo "patched tree does not build"; git checkout -q -- .; exit 1; }
-go test -count=1 $EXIST >/tmp/seed_$ID.log 2>&1 || { echo "existing tests fail with patch"; tail -5 /tmp/seed_$ID.log; git checkout -q -- .; exit 1; }
+go test -count=1 ${SEED_EXIST:-$EXIST} >/tmp/seed_$ID.log 2>&1 || { echo "existing tests fail with patch"; tail -5 /tmp/seed_$ID.log; git checkout -q -- .; exit 1; }
 cp "$SD/demo_test.go" "$PKG/zz_demo_test.go"
-if go test -count=1 $RUN "./$PKG/" >/tmp/seed_$ID.log 2>&1; then echo "demo passes WITH patch (should fail)"; rm -f "$PKG"/zz_demo_test.go; git checkout -q -- .; exit 1; fi
+if go test $TAGS -count=1 $RUN "./$PKG/" >/tmp/seed_$ID.log 2>&1; then echo "demo passes WITH patch (should fail)"; rm -f "$PKG"/zz_demo_test.go; git checkout -q -- .; exit 1; fi
 grep -q "setup failed\|build failed" /tmp/seed_$ID.log && { echo "demo does not build"; tail -5 /tmp/seed_$ID.log; rm -f "$PKG"/zz_demo_test.go; git checkout -q -- .; exit 1; }
 git checkout -q -- .
-if ! go test -count=1 $RUN "./$PKG/" >/tmp/seed_$ID.log 2>&1; then echo "demo fails WITHOUT patch"; tail -5 /tmp/seed_$ID.log; rm -f "$PKG"/zz_demo_test.go; exit 1; fi
+if ! go test $TAGS -count=1 $RUN "./$PKG/" >/tmp/seed_$ID.log 2>&1; then echo "demo fails WITHOUT patch"; tail -5 /tmp/seed_$ID.log; rm -f "$PKG"/zz_demo_test.go; exit 1; fi
 rm -f "$PKG"/zz_demo_test.go /tmp/seed_$ID.log
 mkdir -p /verif/seeded/$ID && cp "$SD/patch.diff" "$SD/demo_test.go" "$SD/meta.json" /verif/seeded/$ID/
 echo "confirmed $ID"
